@@ -309,8 +309,8 @@ def run(tier, seed, replay=None):
         jobs["clean_wb+wt"] = pool.submit(job, "C16_mc_clean", "CacheMC.tla", mc_consts(scens=(3, 2)),
                                           invariants=INVS, view="View", timeout=3000, workers=6)
     else:
-        for name, kw in (("clean_k2_2x2", dict(scens=(1, 2, 3, 4), nops=(2, 2, 0))),
-                         ("clean_k2_lat", dict(scens=(5, 6, 7, 8))),
+        for name, kw in (("clean_k2_2x2", dict(scens=(3, 2), nops=(2, 2, 0))),
+                         ("clean_k2_lat", dict(scens=(1, 4, 5, 6, 7, 8))),
                          ("clean_k3", dict(K=3, cap=2, scens=(3, 2), pre=(1, 2))),
                          ("clean_3procs", dict(scens=(3, 2), nops=(1, 1, 1)))):
             jobs[name] = pool.submit(job, f"C16_mc_{name}", "CacheMC.tla", mc_consts(**kw), invariants=INVS,
@@ -329,6 +329,14 @@ def run(tier, seed, replay=None):
         return tlc.run(SPEC / "PoliciesMC.tla", cfg, label="C16_pol", timeout=900, dump_dot=pol_dot, workers=2,
                        env=LIGHT_JVM)
     jobs["policies"] = pool.submit(pol_job)
+    loose_dot = tlc.workdir("C16_pol_loose") / "pol.dot"
+    if not quick:
+        def loose_job():
+            c = dict(pol_consts, Strict="FALSE", MaxLen=3, MaxN=5)
+            cfg = tlc.write_cfg(tlc.WORK / "C16_pol_loose" / "mc.cfg", spec="Spec", constants=c, constraints=["Bound"])
+            return tlc.run(SPEC / "PoliciesMC.tla", cfg, label="C16_pol_loose", timeout=3000, dump_dot=loose_dot,
+                           workers=4)
+        loose_fut = pool.submit(loose_job)
 
     # program enumeration: explicit LRU, deviations as in the code, no invariants, full state (no VIEW)
     gen_wd = tlc.workdir("C16_gen")
@@ -352,7 +360,7 @@ def run(tier, seed, replay=None):
                        if e["property"] == "C16" and e.get("deviation") in tiered.DEVIATIONS})
 
     # -- 3a. random real executions while TLC runs --------------------------
-    n_rand = 1350 if quick else 30000
+    n_rand = 1350 if quick else 20000
     for i in range(n_rand):
         cfg, prog, regime = random_case(rng, i)
         runs.execute(cfg, prog, f"random:{regime}")
@@ -411,6 +419,20 @@ def run(tier, seed, replay=None):
         if con:
             chk.violation(f"policy_{con[1]}:{name}", f"eviction policy {name}: {con[1]} {con[2]}",
                           {"family": "policy", "policy": name, "calls": [l for l, _ in path[:con[0] + 1]]})
+    if not quick:
+        res = loose_fut.result()
+        chk.add_tlc("PoliciesMC arbitrary call sequences (state-check only)", res, count=False)
+        g2 = tlc.parse_dot(loose_dot)
+        n2 = 0
+        for root, path in tlc.edge_tour(g2, max_paths=60000):
+            name = g2.nodes[root]["pol"]
+            done, mis, con = pol9.replay_path(name, path, g2.nodes, root, strict=False)
+            pol_steps += done
+            n2 += 1
+            if mis:
+                chk.note_drift(f"policy {name} (arbitrary calls): after {mis[1]} model={mis[2]} code={mis[3]}")
+        chk.replays += n2
+        chk.extra["policy_graph_arbitrary_calls"] = {"states": len(g2.nodes), "edges": g2.n_edges(), "paths": n2}
     chk.impl_steps += pol_steps
     chk.extra["policy_replay_steps"] = pol_steps
 
